@@ -226,3 +226,14 @@ def c05(r):
     r.exhaustive = True
     r.extra['bounds'] = '6 value types x all statement sequences of length <= %d from an alias-stress pool of 17-27 statements, dump after every statement' % h
     r.conform(scs)
+
+
+@prop('C09')
+def c09(r):
+    r.assumptions += ['unpinned cases (accepted with conversion or rejected; listed in Bloc.tla Unpinned/UnpinnedConcat) only have to keep tables uniform',
+                      'a static type/rank error may be reported at compile time or at run time']
+    h = 2
+    scs = r.gen('Gen_C09', 'Gen_C09.cfg', env={'GEN_DEPTH': str(h)}, timeout=3000)
+    r.exhaustive = True
+    r.extra['bounds'] = '8 container kinds x (at/put/insert/delete/concat/count/set@/@) x 7-11 argument kinds x 14 positions, all single operations; all pairs of a reduced pool; forall lock programs'
+    r.conform(scs)
